@@ -18,6 +18,7 @@ ASSUMPTIONS = ['Model/Sage.v is hand written; tied by correspondence only', 'exa
 
 
 def oracle_moments(rng, d):
+    import sageopt.coniclifts as cl
     con = d['con']
     m, n = d['m'], d['n']
     from sageopt.coniclifts.base import Expression
@@ -75,6 +76,28 @@ def oracle_moments(rng, d):
                 if not ok:
                     return ('moment vector of x=%s (t=%s) violates a %s-block of the dual SAGE constraint: residual %s'
                             % (x, t, co.type, seg))
+    # the compiled system is the stacked blocks, coefficient for coefficient (relative comparison: a coefficient of size 1e-14 is a
+    # coefficient)
+    with warnings.catch_warnings(), sagecorr.adversarial_globals(d['settings']):
+        warnings.simplefilter('ignore')
+        cd2 = con.conic_form()
+        A, b, K, _, _, svid2col = cl.compile_constrained_system([con])
+    A = np.asarray(A.todense(), dtype=float)
+    E = np.zeros(A.shape)
+    eb = []
+    r0 = 0
+    for A_vals, A_rows, A_cols, bb, KK in cd2:
+        for v_, row, col in zip(list(A_vals), np.asarray(A_rows).tolist(), list(A_cols)):
+            if float(v_) != 0:
+                E[r0 + int(row), svid2col[int(col)]] += float(v_)
+        eb += list(np.asarray(bb, dtype=float))
+        r0 += len(bb)
+    if r0 != A.shape[0]:
+        return 'the compiled system has %d rows, the blocks of the constraint have %d' % (A.shape[0], r0)
+    if not np.allclose(A, E, rtol=1e-12, atol=0) or not np.allclose(np.asarray(b, dtype=float), np.array(eb), rtol=1e-12, atol=0):
+        k = np.argwhere(~np.isclose(A, E, rtol=1e-12, atol=0))
+        return ('the compiled matrix differs from the stacked blocks of the dual SAGE constraint, e.g. entry %s: compiled %r, block %r'
+                % (k[0].tolist() if len(k) else 'b', float(A[tuple(k[0])]) if len(k) else None, float(E[tuple(k[0])]) if len(k) else None))
     return None
 
 
@@ -97,7 +120,7 @@ def run(ctx):
         if d['ncones'] >= 1:
             ctx.nontrivial.add(vlib.sha(d['json']))
         cases.append((d['json'], d['cin'], d['cout']))
-        if k % 3 == 0:
+        if k % 3 == 0 or k % 40 == 7:
             why = oracle_moments(ctx.rng, d)
             ctx.count('oracle', 'checked')
             if why:
